@@ -83,7 +83,7 @@ MUTANTS = [
     ('c01-key-ignores-kwargs', ['C01', 'C06'], TR, "            kwargs_for_key = kwargs\n        # Set to not", "            kwargs_for_key = {}\n        # Set to not"),
     ('c01-first-key-lexicographic', ['C01', 'C02'], TR, "interception_key = next((x for x in possible_keys if x in recording_keys), None)",
      "interception_key = next((x for x in sorted(recording_keys) if x.startswith(possible_keys[0][:12])), None) if len(recording_keys) > 6 else next((x for x in possible_keys if x in recording_keys), None)"),
-    ('c01-thread-local-flag-shared', ['C01', 'C04'], TR, "self._thread_locals = threading.local()", "self._thread_locals = type('NS', (), {})()"),
+    ('c01-thread-local-flag-shared', ['C01'], TR, "self._thread_locals = threading.local()", "self._thread_locals = type('NS', (), {})()"),
     ('c01-counter-not-reset-after-play', ['C09'], TR, "            self._playback_outputs = []\n            # Clear any previous invocation counter state\n            self._invoke_counter = Counter()", "            self._playback_outputs = []"),
     ('c01-op-exception-not-output-in-replay', ['C01', 'C03'], TR, "            if self.in_playback_mode:\n                # In playback mode we want to capture this as an error",
      "            if self.in_playback_mode and False:\n                # In playback mode we want to capture this as an error"),
@@ -116,4 +116,25 @@ MUTANTS = [
     ('c02-missing-output-result-runs-body', ['C02'], TR, "                        if fail_on_no_recorded_result:\n                            raise\n                        return default_result_when_not_recorded", "                        if fail_on_no_recorded_result:\n                            raise\n                        return func(*args, **kwargs)"),
     ('c02-run-original-twice', ['C02'], TR, "                            # Run the original method when content was missing in recording\n                            return func(*args, **kwargs)", "                            func(*args, **kwargs)\n                            return func(*args, **kwargs)"),
     ('c02-play-saves-recording-copy', ['C02'], TR, "        recording = self.tape_cassette.get_recording(recording_id)\n        self._playback_recording = recording", "        recording = self.tape_cassette.get_recording(recording_id)\n        if self.recording_enabled:\n            self.tape_cassette.save_recording(recording)\n        self._playback_recording = recording"),
+    # ---- C04
+    ('c04-revert-fix-params-deref', ['C04'], TR, "        if interception_key is not None and recording_parameters is not None:", "        recording_parameters = self._active_recording_parameters or type('P', (), {'copy_data_on_intercepion': None.__class__.__name__ and self._active_recording_parameters.copy_data_on_intercepion})()\n        if interception_key is not None:"),
+    ('c04-swallow-body-exception', ['C04'], TR, "                    self._record_interception(interception_key, {'exception': ex})\n                raise\n", "                    self._record_interception(interception_key, {'exception': ex})\n                    return None\n                raise\n"),
+    ('c04-body-twice-on-handler-failure', ['C04'], TR, "                _logger.exception(error_message)\n\n                self.discard_recording()\n                return result\n", "                _logger.exception(error_message)\n\n                self.discard_recording()\n                return func(*args, **kwargs)\n"),
+    ('c04-return-copied-value', ['C04'], TR, "                try:\n                    recorded_result = pickle_copy(recorded_result)\n", "                try:\n                    recorded_result = pickle_copy(recorded_result)\n                    result = recorded_result if data_handler is None else result\n"),
+    ('c04-touch-cassette-when-disabled', ['C04'], TR, "                if not self.recording_enabled:\n                    return func(*args, **kwargs)\n\n                cls = args[0] if class_function", "                if not self.recording_enabled:\n                    self.tape_cassette.abort_recording(self.tape_cassette.create_new_recording('x'))\n                    return func(*args, **kwargs)\n\n                cls = args[0] if class_function"),
+    ('c04-save-failure-propagates', ['C04'], TR, "                    except Exception:\n                        _logger.exception(u'Failed saving recording of category {} with id {}'.format(\n                            category, recording.id))", "                    except IOError:\n                        _logger.exception(u'Failed saving recording of category {} with id {}'.format(\n                            category, recording.id))\n                        raise"),
+    ('c04-extractor-failure-propagates', ['C04'], TR, "                metadata.update(post_operation_metadata_extractor())\n            except Exception:", "                metadata.update(post_operation_metadata_extractor())\n            except RuntimeError:"),
+    ('c04-key-failure-skips-body', ['C04'], TR, "                    interception_key = None\n                    self.discard_recording()\n", "                    interception_key = None\n                    self.discard_recording()\n                    return None\n"),
+    ('c04-output-handler-failure-raises', ['C04'], TR, "                _logger.exception(error_message)\n\n                self.discard_recording()\n                return\n", "                _logger.exception(error_message)\n\n                self.discard_recording()\n                raise\n"),
+    ('c04-interception-flag-not-restored-on-exception', ['C01', 'C05', 'C09'], TR, "        try:\n            yield\n        finally:\n            self._currently_in_interception = False", "        yield\n        self._currently_in_interception = False"),
+    ('c04-record-interception-asserts', ['C04'], TR, "        recording = self._active_recording\n        if recording is None:\n            return\n        _logger.debug(u'Recording data for recording id {} under key {}'.format(recording.id, key))\n        recording[key] = data", "        self._record_data(key, data)"),
+    # ---- C05
+    ('c05-discard-no-reset', ['C05'], TR, "            self.tape_cassette.abort_recording(recording)\n            self._reset_active_recording()", "            self.tape_cassette.abort_recording(recording)"),
+    ('c05-save-after-input-handler-failure', ['C05'], TR, "                _logger.exception(error_message)\n\n                self.discard_recording()\n                return result\n", "                _logger.exception(error_message)\n\n                return result\n"),
+    ('c05-no-abort-when-sampled-out', ['C05'], TR, "                if not self._should_sample_active_recording(recording, recording_parameters, force_sample):\n                    self.tape_cassette.abort_recording(recording)\n                else:", "                if not self._should_sample_active_recording(recording, recording_parameters, force_sample):\n                    pass\n                else:"),
+    ('c05-key-failure-no-discard', ['C05'], TR, "                    interception_key = None\n                    self.discard_recording()\n", "                    interception_key = None\n"),
+    ('c05-output-handler-failure-no-discard', ['C05'], TR, "                _logger.exception(error_message)\n\n                self.discard_recording()\n                return\n", "                _logger.exception(error_message)\n\n                return\n"),
+    ('c05-interrupt-aborts-and-saves', ['C05'], TR, "        except Exception:\n            metadata[TapeRecorder.EXCEPTION_IN_OPERATION] = True\n            raise\n        finally:", "        except Exception:\n            metadata[TapeRecorder.EXCEPTION_IN_OPERATION] = True\n            raise\n        except BaseException:\n            self.tape_cassette.abort_recording(self._active_recording)\n            raise\n        finally:"),
+    ('c05-save-retried-on-failure', ['C05'], TR, "                    except Exception:\n                        _logger.exception(u'Failed saving recording of category {} with id {}'.format(\n                            category, recording.id))", "                    except Exception:\n                        try:\n                            self.tape_cassette.save_recording(recording)\n                        except Exception:\n                            pass"),
+    ('c05-discard-after-finalise-window', ['C09'], TR, "                # Clear recording not to leave recording in active state if we have\n                # some exception raised in following code\n                self._reset_active_recording()\n", ""),
 ]
